@@ -173,12 +173,12 @@ def _run(job):
         shutil.rmtree(tmp, ignore_errors=True)
 
 
-def root_functions(prop: str) -> List[Tuple[str, str]]:
-    """[(relpath, Class.method | function)] the property's rules asked for by name on the current tree."""
+def root_functions(prop: str, everything: bool = False) -> List[Tuple[str, str]]:
+    """[(relpath, Class.method | function)] the property's rules asked for by name on the current tree (or every function of the package)."""
     from sa.cli import evaluate
     ck, mod, an, viol, kn = evaluate(prop, None, "quick")
     out = []
-    for q in sorted(an.scope()[0]):
+    for q in sorted(an.prog.functions if everything else an.scope()[0]):
         f = an.prog.functions.get(q)
         if f is None or f.outer is not None or f.module.name.startswith("_fixture"):
             continue
@@ -186,10 +186,10 @@ def root_functions(prop: str) -> List[Tuple[str, str]]:
     return out
 
 
-def sweep(prop: str, jobs: int = 16) -> Dict:
+def sweep(prop: str, jobs: int = 16, everything: bool = False) -> Dict:
     work = []
     per_fn = {}
-    for rel, qual in root_functions(prop):
+    for rel, qual in root_functions(prop, everything):
         with open(os.path.join(REPO, rel), "r", newline="") as f:
             src = f.read().replace("\r\n", "\n")
         fn = _find(ast.parse(src), qual)
@@ -206,8 +206,9 @@ def sweep(prop: str, jobs: int = 16) -> Dict:
 
 
 if __name__ == "__main__":
-    for p in sys.argv[1:]:
-        r = sweep(p)
+    everything = "--all" in sys.argv
+    for p in [a for a in sys.argv[1:] if not a.startswith("--")]:
+        r = sweep(p, everything=everything)
         print(f"== {p}: {r['generated']} behaviour-preserving variants of {len(r['functions'])} functions, silent {r['silent']}, FALSE ALARMS {len(r['false_alarms'])}")
         for d, k, w in r["false_alarms"]:
             print(f"   {k.upper()} {d}\n        {w}")
